@@ -711,4 +711,124 @@ theorem getModule_spec : ∀ fuel, GSpec (getModule fuel) := by
                 cases h
                 simp [finishInit]
 
+/-! ### the loops around `get_module` -/
+
+/-- top level: invariant, and nothing is being initialised -/
+def Top (st : St) : Prop := Inv st ∧ st.stack = []
+
+abbrev Mono (st st' : St) : Prop := Tr (fun _ => False) st st'
+
+theorem top_getModule (fuel : Nat) (st : St) (name : Name) (h : Top st) :
+    Top (getModule fuel st name).1 ∧ Mono st (getModule fuel st name).1 ∧
+    ∀ m, (getModule fuel st name).2 = Res.ok m → m ∈ (getModule fuel st name).1.inited := by
+  obtain ⟨i, s, t, r⟩ := getModule_spec fuel st name h.1
+  exact ⟨⟨i, s.trans h.2⟩, t.weaken (fun _ hx => hx.elim), r⟩
+
+theorem top_quiet {st st' : St} (q : Quiet st st') (h : Top st) : Top st' ∧ Mono st st' :=
+  ⟨⟨q.inv h.1, q.stack.trans h.2⟩, q.tr _⟩
+
+theorem top_createOne (fuel : Nat) (dyn : List ModCfg) (c : ModCfg) (st : St) (h : Top st) :
+    Top (createOne fuel dyn c st).1 ∧ Mono st (createOne fuel dyn c st).1 := by
+  unfold createOne
+  split
+  · exact ⟨h, Tr.refl _ _⟩
+  · have q1 : Quiet st { st with known := upsertCfg st.known c } := ⟨rfl, rfl, rfl, rfl, id, id, fun _ h => h, id⟩
+    have q2 := quiet_getModuleInstance { st with known := upsertCfg st.known c } c.name
+    have q := q1.trans q2
+    obtain ⟨t1, m1⟩ := top_quiet q h
+    simp only
+    cases hI : getModuleInstance { st with known := upsertCfg st.known c } c.name with
+    | mk sI r =>
+      rw [hI] at t1 m1
+      cases r with
+      | none => exact ⟨t1, m1⟩
+      | raised cls => exact ⟨t1, m1⟩
+      | ok m =>
+        simp only
+        split
+        · obtain ⟨t2, m2, _⟩ := top_getModule fuel sI m t1
+          exact ⟨t2, m1.trans m2⟩
+        · exact ⟨t1, m1⟩
+
+theorem top_createLoop (dyn : List ModCfg) (gfuel : Nat) : ∀ (n : Nat) (todos : List ModCfg) (st : St), Top st →
+    Top (createLoop dyn gfuel n todos st) ∧ Mono st (createLoop dyn gfuel n todos st) := by
+  intro n
+  induction n with
+  | zero =>
+    intro todos st h
+    cases todos with
+    | nil => exact ⟨h, Tr.refl _ _⟩
+    | cons c rest =>
+      have q : Quiet st { st with oof := true } := ⟨rfl, rfl, rfl, rfl, id, fun _ => rfl, fun _ h => h, id⟩
+      exact top_quiet q h
+  | succ n ih =>
+    intro todos st h
+    cases todos with
+    | nil => exact ⟨h, Tr.refl _ _⟩
+    | cons c rest =>
+      simp only [createLoop]
+      obtain ⟨t1, m1⟩ := top_createOne gfuel dyn c st h
+      cases hC : createOne gfuel dyn c st with
+      | mk s1 more =>
+        rw [hC] at t1 m1
+        obtain ⟨t2, m2⟩ := ih (rest ++ more) s1 t1
+        exact ⟨t2, m1.trans m2⟩
+
+theorem top_initAll (fuel : Nat) : ∀ (ms : List Name) (st : St), Top st →
+    Top (initAll fuel ms st) ∧ Mono st (initAll fuel ms st) ∧
+    ((initAll fuel ms st).oof = false → ∀ m ∈ ms, m ∈ st.modules → m ∈ (initAll fuel ms st).inited) := by
+  intro ms
+  induction ms with
+  | nil => intro st h; exact ⟨h, Tr.refl _ _, by intro _ m hm; cases hm⟩
+  | cons a ms ih =>
+    intro st h
+    simp only [initAll]
+    obtain ⟨t1, m1, r1⟩ := top_getModule fuel st a h
+    obtain ⟨t2, m2, r2⟩ := ih (getModule fuel st a).1 t1
+    refine ⟨t2, m1.trans m2, ?_⟩
+    intro hoof m hm hmm
+    rcases List.mem_cons.mp hm with rfl | hm
+    · -- `m` is a module of the node: `get_module` returns it (unless the fuel bound was hit)
+      have hres : (getModule fuel st m).2 = Res.ok m ∨ (getModule fuel st m).1.oof = true := by
+        cases fuel with
+        | zero => exact Or.inr rfl
+        | succ f =>
+          left
+          have hc : st.modules.contains m = true := by simpa using hmm
+          simp only [getModule, getModuleInstance, hc, if_true]
+          split
+          · rfl
+          · split
+            · rename_i hs
+              rw [h.2] at hs
+              simp at hs
+            · rfl
+      rcases hres with hres | hres
+      · exact m2.inited m (r1 m hres)
+      · have := m2.oof hres
+        rw [this] at hoof
+        cases hoof
+    · exact r2 hoof m hm (m1.mods m hmm)
+
+theorem inv_init (known : List ModCfg) : Top ({ known := known } : St) := by
+  refine ⟨⟨by simp, by simp, by simp, by simp, by simp, by simp, by simp, ?_, trivial, by simp, by simp⟩, rfl⟩
+  intro x
+  exact List.Pairwise.nil
+
+/-- the state of `_processCfg` before the decision to start -/
+def core (cfg : Cfg) (fuel : Nat) : St :=
+  let st : St := { known := cfg.mods }
+  let st := createLoop cfg.dyn fuel fuel cfg.mods st
+  let st := initAll fuel st.modules st
+  initAll fuel st.exportL st
+
+theorem startup_eq (cfg : Cfg) (fuel : Nat) :
+    startup cfg fuel = if (core cfg fuel).errors.isEmpty then core cfg fuel else emit (core cfg fuel) Ev.exit := rfl
+
+theorem top_core (cfg : Cfg) (fuel : Nat) : Top (core cfg fuel) := by
+  unfold core
+  obtain ⟨t1, _⟩ := top_createLoop cfg.dyn fuel fuel cfg.mods _ (inv_init cfg.mods)
+  obtain ⟨t2, _, _⟩ := top_initAll fuel (createLoop cfg.dyn fuel fuel cfg.mods { known := cfg.mods }).modules _ t1
+  exact (top_initAll fuel _ _ t2).1
+
 end Frappy.Proofs.LifecycleInit
